@@ -116,8 +116,16 @@ func (w *World) checkStep(prev, cur *snapshot, res StepResult, calls []simvk.Cal
 
 	// ---- C13: a refused op changes nothing ----
 	if res.Kind == "err" && prev != nil && op.Name != "dend" && op.Name != "dbuf" && op.Name != "dimg" && prev.stateKey != cur.stateKey {
-		kind, detail := firstDiff(prev.lines, cur.lines)
-		fs.add("C13", "refused-"+op.Name+"-changed-"+kind, "op %q returned an error but state changed: %s", op.String(), detail)
+		// the property speaks of live allocations, their locations, device memory held and counters:
+		// the order of blocks inside a list is not part of it (a refused request may re-sort blocks)
+		pl, cl := refusalView(prev.lines), refusalView(cur.lines)
+		if strings.Join(pl, "\n") != strings.Join(cl, "\n") {
+			kind, detail := firstDiff(pl, cl)
+			if releasedOnlySpareBlocks(prev.lines, cur.lines) {
+				kind = "released-spare-block"
+			}
+			fs.add("C13", "refused-"+op.Name+"-changed-"+kind, "op %q returned an error but state changed: %s", op.String(), detail)
+		}
 	}
 
 	// ---- C10: an operation that failed under an injected fault leaves reusable Allocation objects ----
@@ -692,6 +700,77 @@ func (w *World) blockIndex(s *snapshot, mem int) int {
 		}
 	}
 	return -1
+}
+
+// refusalView canonicalises the state dump for the "refusal changes nothing" comparison: the position
+// of a block inside its list is dropped and the blocks of a list are sorted by block id.
+func refusalView(lines []string) []string {
+	out := make([]string, 0, len(lines))
+	var blk []string
+	flush := func() {
+		sort.Strings(blk)
+		out = append(out, blk...)
+		blk = blk[:0]
+	}
+	for _, l := range lines {
+		f := strings.Fields(l)
+		if len(f) > 4 && f[0] == "BLK" {
+			// BLK kind idx pos blockId mem size empty allocCount sumFree mapRefs extraMapping mapped
+			// -> drop pos and the hysteresis flag (an internal heuristic, not a counter the caller can see)
+			g := append(append([]string{}, f[:3]...), f[4:]...)
+			if len(g) > 10 {
+				g = append(g[:10], g[11:]...)
+			}
+			blk = append(blk, strings.Join(g, " "))
+			continue
+		}
+		flush()
+		out = append(out, l)
+	}
+	flush()
+	return out
+}
+
+// releasedOnlySpareBlocks: the allocations are unchanged and every device memory object that
+// disappeared backed a block that was empty before the op (a spare block was given back).
+func releasedOnlySpareBlocks(prev, cur []string) bool {
+	emptyMem := map[string]bool{}
+	var pa, ca []string
+	pdev, cdev := map[string]bool{}, map[string]bool{}
+	for _, l := range prev {
+		f := strings.Fields(l)
+		switch {
+		case len(f) > 7 && f[0] == "BLK" && f[7] == "1":
+			emptyMem[f[5]] = true
+		case f[0] == "A":
+			pa = append(pa, l)
+		case f[0] == "DEV":
+			pdev[f[1]] = true
+		}
+	}
+	for _, l := range cur {
+		f := strings.Fields(l)
+		switch {
+		case f[0] == "A":
+			ca = append(ca, l)
+		case f[0] == "DEV":
+			cdev[f[1]] = true
+		}
+	}
+	if strings.Join(pa, "\n") != strings.Join(ca, "\n") || len(cdev) >= len(pdev) {
+		return false
+	}
+	for m := range cdev {
+		if !pdev[m] {
+			return false
+		}
+	}
+	for m := range pdev {
+		if !cdev[m] && !emptyMem[m] {
+			return false
+		}
+	}
+	return true
 }
 
 func firstDiff(a, b []string) (kind, detail string) {
